@@ -17,18 +17,23 @@ class TopoCheck:
         "listed_nodes_are_nodes_of_the_argument; assumed python semantics: a dict comprehension over a list has exactly the names of the listed classes "
         "as keys; list(d.keys()) lists keys of d",
         "python semantics assumed in the proof: a filtering list comprehension yields an order-preserving subsequence; dict keys are pairwise distinct",
+        "sources_from_classes (the glue between the sorted list and the emitted text) is under contract: the API of every listed class exactly once, in the "
+        "order of the classes, extra sources after the API of their class (ghost witness maps POS / OWN); _concatenate_sources / add_kernels (file reading, "
+        "cffi) stay with the bounded part; Kernel.get_classes (every argument / return type that has an API, nothing else) and classes_from_kernels "
+        "(the classes of every kernel of the dict are members of the result) are under contract as well (assumed python semantics: a filtering comprehension "
+        "lists e(a) for exactly the a that pass the filter; set.update adds the elements of its argument)",
     ]
     EXPLANATION = ("Proved on the real topological_sort for every input graph (symbolic dict/list model, seven loop invariants): the result never "
                    "lists a node twice when no cycle is reported and lists only nodes of its argument (keys or listed parents).  Proved on the real sort_classes for every class list and dependency relation (abstract "
                    "classes, growing list cut at a five-clause invariant): at the call of topological_sort every listed class has an entry and every "
-                   "dependency name is itself a key (closure), a reported cycle raises, every sorted name is found in class_by_name. Bounded: run-time evaluation of the contract of topological_sort (no duplicate, complete, parents first, has_cycle iff cyclic) on the real "
+                   "dependency name is itself a key (closure), a reported cycle raises, every sorted name is found in class_by_name. Proved on the real sources_from_classes for every class list: the returned sources hold the API of every listed class exactly once, in list order (invariant with ghost witness maps). Bounded: run-time evaluation of the contract of topological_sort (no duplicate, complete, parents first, has_cycle iff cyclic) on the real "
                    "function over an exhaustively enumerated small scope, and of sort_classes/add_kernels on real classes of every kind including "
                    "fieldless structs with dependents, _depends_on and cycles. Bounded stand-in, labelled as such.")
 
     def targets(self):
-        from . import toposort_vc, sortclasses_vc
+        from . import toposort_vc, sortclasses_vc, sources_vc, sources2_vc
 
-        return toposort_vc.targets() + sortclasses_vc.targets()
+        return toposort_vc.targets() + sortclasses_vc.targets() + sources_vc.targets() + sources2_vc.targets()
 
     def bounded(self, tier, seed, focus):
         return toposort_native.run(tier, seed)
